@@ -93,6 +93,46 @@ func udpControl() *vtx.Profile {
 	}
 }
 
+// v6Profile: the same relay over IPv6: an IPv6 stream listener, an IPv6 TCP allocation, IPv6 peers that are
+// connected to and that connect. Every address in a response or indication is that of the real connection.
+func v6Profile() *vtx.Profile {
+	depth := 3
+	if rep.Thorough() {
+		depth = 4
+	}
+	ns := time.Nanosecond
+
+	return &vtx.Profile{
+		Name: "c16-tcp-relay-ipv6", Configs: []vtx.Config{{Stream: true, V6: true}}, Clients: []string{"c6"}, Peers: []string{"V6", "V6b"},
+		Depth: depth, Drain: true, Resources: true,
+		Tags: map[string]bool{"tcp": true, "policy": true, "leak-p2c": true, "miss-p2c": true, "resp": true, "resources": true, "count": true},
+		Setup: func(vtx.Config) []vtx.Event {
+			return []vtx.Event{{K: "alloc", C: "c6", L: -1, TCP: true, Fam: 6}, prof.E("perm", "c6", 0, "V6")}
+		},
+		Menu: func(m *vtx.Model, now time.Time, _ int) []vtx.Event {
+			e := []vtx.Event{
+				prof.E("connect", "c6", 0, "V6"), prof.E("connect", "c6", 0, "V6b"),
+				prof.E("peerdial", "c6", 0, "V6"), prof.E("peerdial", "c6", 0, "V6b"), prof.E("perm", "c6", 0, "V6b"),
+			}
+			for i, cv := range m.ConnView["c6"] {
+				n := uint16(i) //nolint:gosec
+				e = append(e, vtx.Event{K: "cbind", C: "c6", N: n, Peers: []string{"c6"}, L: -1})
+				if cv.Bound {
+					e = append(e, vtx.Event{K: "bytes", C: "c6", N: n, Rule: "c2p", L: 1}, vtx.Event{K: "bytes", C: "c6", N: n, Rule: "p2c", L: 7})
+				}
+			}
+
+			return append(e, vtx.AdvanceMenu(m, now, []time.Duration{ns}, nil)...)
+		},
+	}
+}
+
+func TestC16V6(t *testing.T) {
+	r := rep.New("C16")
+	defer r.Write()
+	vtx.Explore(t, v6Profile(), r)
+}
+
 func TestC16UDPControl(t *testing.T) {
 	r := rep.New("C16")
 	defer r.Write()
